@@ -30,8 +30,8 @@ E2_RULES = [
     ("value-with-trailing-comment", lambda s, d: "# c" in s),
     ("quoted-vs-bare-name", lambda s, d: "'\"a\"'" in s),
     ("scope-layer-on-call-argument", lambda s, d: re.search(r"(^|/)call/[a-z0-9]+:|c09/(call|lamcall)/", s.split("|")[1] + ":") is not None and "@" in s.split("|", 2)[2]),
-    ("let-not-adjacent-to-target", lambda s, d: re.search(r"let(1|2|ap|2c|set)/(lamf|lam|with|assert|paren|call)/|c09/\w+/\d/\w+/outer", s) is not None and "@" in s.split("|", 2)[2]),
-    ("scope-selector-falls-back-to-body", lambda s, d: re.search(r"set '(\w+)' .* ; (set|rm) '@\1'", s) is not None),
+    ("let-not-adjacent-to-target", lambda s, d: re.search(r"let(1|2|ap|2c|set|inh0?)/(lamf|lam|with|assert|paren|call)/|c09/\w+/\d/\w+/outer", s) is not None and "@" in s.split("|", 2)[2]),
+    ("scope-selector-falls-back-to-body", lambda s, d: re.search(r"set '(\w+)' .* ; (set|rm) '@\1'", s) is not None or ("/ml2/" in s and "'@a'" in s)),
     ("mixed-explicit-and-attrpath", lambda s, d: re.search(r"[/|]mixed(3|_rev)?:", s) is not None),
     ("layer-prune-drops-comment-between-layers", lambda s, d: "let2c" in s),
     ("inherited-name", lambda s, d: "set 'q'" in s),
